@@ -240,6 +240,11 @@ def run(ctx):
                 la = rng.randrange(1, 6)
                 recs = [(x, bytes(rng.randrange(256) for _ in range(la))), (x + la - rng.randrange(0, 2), bytes(rng.randrange(256) for _ in range(4))),
                         (x + la, bytes(rng.randrange(256) for _ in range(2)))]
+                if i % 6 == 3:
+                    # ... and a later record that starts *below* an earlier one and runs into it (a fill, then a fix-up a
+                    # few bytes lower): records are applied in file order, the later one wins where they overlap
+                    fill = bytes([rng.randrange(256)]) * rng.randrange(6, 12)
+                    recs = [(x, fill), (x - rng.randrange(1, 4), bytes(rng.randrange(1, 256) for _ in range(5))), (x + 1, bytes([rng.randrange(256)]))]
                 body = b"".join(a.to_bytes(3, "big") + len(d).to_bytes(2, "big") + d for a, d in recs)
             with open(os.path.join(tmp, "top.ips"), "wb") as fh:
                 fh.write(b"PATCH" + body + b"EOF")
